@@ -76,7 +76,7 @@ Proof.
     assert (Hs' : bsh (t (pidx L start p)) slot = Gen_O2.pvCalcShortHash (hash key)) by (rewrite <- Hbp; exact Hs).
     assert (Hk' : bky (t (pidx L start p)) slot = key) by (rewrite <- Hbp; exact Hk).
     pose proof (find_loop_hit L t key p slot (Gen_O2MP.GetMaxProbe (bst (t start))) HL Hp Hbd ltac:(lia) Hs' Hk'
-                (S (Z.to_nat (2 ^ L))) 1 ltac:(lia) ltac:(lia)) as X.
+                (S (Z.to_nat (Gen_O2MP.GetMaxProbe (bst (t start))))) 1 ltac:(lia) ltac:(unfold Gen_O2MP.GetMaxProbe; unfold decode in Hbd; lia)) as X.
     change (1 - 1) with 0 in X. fold start in X. rewrite pidx_0 in X by lia. exact X.
   - destruct (Z.eqb_spec r 0); [lia|]. eexists. split; [reflexivity|].
     exists start, (r - 1). split; [reflexivity|]. split; [lia|]. split; assumption.
